@@ -6,7 +6,7 @@ from . import common, frag, fragrun
 LEVEL = "translation_validation"
 RULE = ("Frag programs into which UNUSED private definitions are injected at random places (top level, procedure bodies, for!/if! "
         "bodies): initialisers that are pure (literal, arithmetic, pure call) and initialisers with effects (print!, a printing "
-        "procedure, a mutating method whose effect is observed later, effects inside list/tuple/record literals, nested calls); each "
+        "procedure, a mutating method whose effect is observed later, effects inside list/tuple/record literals, nested calls), and USED one-line functions defined and used on the same `;`-joined line; a third of the programs import a helper module whose unused private names sit at the same line/column as the main module's definitions; each "
         "program is run with `erg -o N run` for N = 0, 1, 2, 3 and all four outcomes (stdout after the sentinel, exit status, "
         "exception class) must be equal, and equal to the independent Python reading. distinct = distinct (program skeleton, "
         "injected-kind multiset)")
@@ -25,7 +25,7 @@ def inject(tree, rng, counter):
     def unused_stmts():
         counter[0] += 1
         n = counter[0]
-        k = rng.choice(["pure-lit", "pure-arith", "pure-call", "print", "proc", "push", "list", "tuple", "record", "nested", "str-method"])
+        k = rng.choice(["pure-lit", "pure-arith", "pure-call", "print", "proc", "push", "list", "tuple", "record", "nested", "str-method", "same-line-def-use"])
         kinds.append(k)
         if k == "pure-lit":
             lit = rng.choice(["1", '"s"', "2.5", "True", "[1, 2]"])
@@ -48,6 +48,9 @@ def inject(tree, rng, counter):
             return [("raw", f'u{n}_ = {{k = print!("eff-rec-{n}")}}', f'print("eff-rec-{n}")')]
         if k == "nested":
             return [("raw", f'u{n}_ = idi_(effp_!({n}))', f"effp_({n})")]
+        if k == "same-line-def-use":
+            # a USED private function whose definition and only uses share one source line
+            return [("raw", f"inc{n}_(x: Int): Int = x + {n}; print!(inc{n}_(2), inc{n}_(3))", f"print({2 + n}, {3 + n})")]
         if k == "str-method":
             return [("raw", f'u{n}_ = "abc".upper()', "pass")]
         raise ValueError(k)
@@ -68,11 +71,34 @@ def inject(tree, rng, counter):
                 s = s[:3] + (walk(s[3], depth + 1),)
             out.append(s)
         if rng.random() < 0.3:
-            out += unused_stmts()
+            if depth > 0 and out:
+                # a block must not end with a definition (its last statement is the block's value)
+                out[-1:-1] = unused_stmts()
+            else:
+                out += unused_stmts()
         return out
     body = walk(tree, 0)
     prelude = [("raw", 'effp_!(n: Int) =\n    print!("eff-proc", n)\n    n + 1', 'def effp_(n):\n    print("eff-proc", n)\n    return n + 1')]
     return prelude + body, kinds
+
+
+def add_helper(d, er):
+    """Make the program a two-module project: the main module imports `hlp_`, whose only content is UNUSED private names that
+    sit at exactly the line and column range of the main module's top-level definitions (positions must never identify a
+    definition across modules)."""
+    import re
+    lines = open(er, encoding="utf-8").read().split("\n")
+    lines.insert(1, 'hlp_ = import "hlp_"')
+    lines.append("print!(hlp_.pub_)")
+    helper = []
+    for ln in lines:
+        m = re.match(r"^([a-z_][A-Za-z0-9_]*!?)(\(|: | = )", ln)
+        helper.append(("z" * len(m.group(1).rstrip("!")) + " = 0") if m and not ln.startswith(("print", "hlp_", "for", "if", "while", "assert")) else "# -")
+    helper.append(".pub_ = 7")
+    open(os.path.join(d, "hlp_.er"), "w", encoding="utf-8").write("\n".join(helper) + "\n")
+    open(er, "w", encoding="utf-8").write("\n".join(lines) + "\n")
+    py = er[:-3] + "_ref.py"
+    open(py, "a", encoding="utf-8").write("\nprint(7)\n")
 
 
 def run_one(ctx, case):
@@ -89,6 +115,9 @@ def run_one(ctx, case):
         tree = frag.generate(rng, frag.Opts(exits=False))
         tree, kinds = inject(tree, rng, [0])
         er, py = fragrun.write_case(d, "p", tree)
+        if case.get("helper"):
+            kinds.append("helper-module-with-aligned-unused-names")
+            add_helper(d, er)
         skel = common.sha([frag.skeleton([s for s in tree if s[0] != "raw"]), sorted(kinds)])
     res = {"case": case, "kinds": kinds, "skel": skel}
     ref = fragrun.outcome(fragrun.py_run(ctx, py))
@@ -160,8 +189,8 @@ KNOWN_CASES = [
 
 
 def run(ctx, rep):
-    n = ctx.n(120, 8000)
-    cases = [{"seed": f"C12:{ctx.seed}:{i}"} for i in range(n)]
+    n = ctx.n(120, 1500)
+    cases = [{"seed": f"C12:{ctx.seed}:{i}", "helper": i % 3 == 0} for i in range(n)]
     for r in common.pmap(lambda c: run_one(ctx, c), cases):
         record(rep, r)
     for sig, e, p in KNOWN_CASES:
